@@ -621,9 +621,89 @@ def validate_real_pool(spec, acc):
     acc.sample({"validate_real_pool": True, "ids": ids, "vector": spec["vector"], "delay_patterns": spec["delays"]}, "realpool")
 
 
+ID_TOKENS = ["g", "g_t", "fasta", "fasta_t", "gz", "json", "v2", "a"]
+ID_EXTS = ["", ".fasta", ".fasta.gz", ".json", ".gz", ".txt", ".fasta.bz2", ".json.zip"]
+ID_PAIRS = ["g.fasta_t.fasta", "g_t.fasta", "g.fasta.fasta", "g.fasta", "g.fasta_t.fasta_t.fasta", "g_t.fasta_t.fasta"]
+
+
+def model_identifier(name):
+    """the record identifier of a source: its file name without the trailing format (and compression) suffix"""
+    toks = name.split(".")
+    if len(toks) == 1:
+        return name
+    if toks[-1] in ("bz2", "gz", "zip"):
+        return ".".join(toks[:-2]) if len(toks) >= 3 else toks[0]
+    return ".".join(toks[:-1])
+
+
+def check_identifiers(acc):
+    """the identifier function the writers use, on every name built from a few tokens; then every pair of sources whose
+    names contain the suffix text a second time, written through write_db"""
+    from cogent3 import get_app
+    from cogent3.app.data_store import get_unique_id
+    from cogent3.app.sqlite_data_store import DataStoreSqlite
+
+    for n in (1, 2, 3):
+        for toks in itertools.product(ID_TOKENS, repeat=n):
+            for ext in ID_EXTS:
+                name = ".".join(toks) + ext
+                for form in ("name", "path"):
+                    arg = name if form == "name" else os.path.join("/some/dir.fasta", name)
+                    case = {"identifiers": True, "name": arg}
+                    acc.case(case, nontrivial=True)
+                    want = model_identifier(name)
+                    try:
+                        got = get_unique_id(arg)
+                    except Exception as e:  # noqa: BLE001
+                        got = f"raised {type(e).__name__}"
+                    acc.outcome(("identifier", got == name))
+                    if got != want:
+                        inner = any(t in ("fasta", "gz", "json") for t in toks)
+                        acc.fail("identifier of a source is not its name without the trailing format suffix"
+                                 + (" [the suffix text also occurs inside the name]" if inner else ""), case, {"got": got, "want": want})
+    base = tempfile.gettempdir()
+    for a, b in itertools.permutations(ID_PAIRS, 2):
+        work = tempfile.mkdtemp(prefix="c14i-", dir=base)
+        case = {"identifiers": True, "sources": [a, b]}
+        acc.case(case, nontrivial=True)
+        try:
+            os.makedirs(os.path.join(work, "in"))
+            paths = []
+            for k, nm in enumerate((a, b)):
+                pth = os.path.join(work, "in", nm)
+                text = f">s1\n{'ACGT'[k:] + 'AACC'}\n>s2\n{'GGTT' + 'ACGT'[:k + 1]}\n"
+                with open(pth, "w") as f:
+                    f.write(text)
+                paths.append(pth)
+            out = DataStoreSqlite(os.path.join(work, "out.sqlitedb"), mode="w")
+            app = get_app("load_unaligned", format="fasta", moltype="dna") + get_app("write_db", data_store=out)
+            app.apply_to(paths, logger=False, show_progress=False)
+            out.close()
+            ro = DataStoreSqlite(os.path.join(work, "out.sqlitedb"), mode="r")
+            done = sorted(str(m.unique_id) for m in ro.completed)
+            nc = sorted(str(m.unique_id) for m in ro.not_completed)
+            reader = get_app("load_db")
+            content = {str(m.unique_id): reader(m).to_dict() for m in ro.completed}
+            ro.close()
+            want = sorted(model_identifier(x) for x in (a, b))
+            acc.outcome(("identifier pair", tuple(done)))
+            if done != want or nc:
+                acc.fail("two sources whose names differ only by suffix text inside the name do not end up as two completed records [sqlite store, write_db]",
+                         case, {"completed": done, "not_completed": nc, "want": want})
+            else:
+                for k, nm in enumerate((a, b)):
+                    if content[model_identifier(nm)] != {"s1": "ACGT"[k:] + "AACC", "s2": "GGTT" + "ACGT"[:k + 1]}:
+                        acc.fail("a record holds another source's content [sqlite store, write_db]", case, {"id": model_identifier(nm), "got": content[model_identifier(nm)]})
+        except Exception as e:  # noqa: BLE001
+            acc.fail(f"writing two sources raised {type(e).__name__} [sqlite store, write_db]", case, {"error": str(e)[:200]})
+        finally:
+            shutil.rmtree(work, ignore_errors=True)
+    acc.sample({"identifier_tokens": ID_TOKENS, "extensions": ID_EXTS, "pairs": ID_PAIRS}, "identifiers")
+
+
 def shards(tier, seed):
     b = bounds(tier)
-    out = [{"part": "passthrough"}, {"part": "falsy"}, {"part": "funcapp"}]
+    out = [{"part": "passthrough"}, {"part": "falsy"}, {"part": "funcapp"}, {"part": "identifiers"}]
     if tier == "thorough":
         for store in b["stores"]:
             out.append({"part": "realpool", "ids": ["ba", "a", "c"], "vector": ["raise", "ok", "ok"], "store": store,
@@ -647,6 +727,8 @@ def run_shard(spec, acc):
         check_function_app(acc)
     elif spec["part"] == "falsy":
         check_falsy(acc)
+    elif spec["part"] == "identifiers":
+        check_identifiers(acc)
     elif spec["part"] == "passthrough":
         check_passthrough(acc)
     elif spec["part"] == "realpool":
@@ -686,6 +768,10 @@ def replay(case):
     if "function_app" in case:
         acc = Acc()
         check_function_app(acc)
+        return [(s, r["cases"][0]["detail"]) for s, r in acc.failures.items()]
+    if "identifiers" in case:
+        acc = Acc()
+        check_identifiers(acc)
         return [(s, r["cases"][0]["detail"]) for s, r in acc.failures.items()]
     if "falsy" in case:
         acc = Acc()
